@@ -1613,14 +1613,14 @@ def compare_with_model(ctx, lines, pend):
             ok = impl[0] == m[0] == "err" and impl[1] == m[1]
             ctx.sample(f"[{p['label']}] {short[:120]} -> impl {impl[0]} {impl[1] if impl[0] == 'err' else ''} | model {m[0]} {m[1] if m[0] == 'err' else ''}", cap=8)
             if not ok:
-                ctx.disagreements.append({"line": short, "rows": p["rows"], "label": p["label"], "impl": str(impl[:2])[:300], "model": str(m[:2])[:300]})
+                ctx.disagreements.append({"line": short, "full_line": ln[:20000], "rows": p["rows"], "label": p["label"], "impl": str(impl[:2])[:300], "model": str(m[:2])[:300]})
             continue
         d = diff_canon(impl[1], m[1])
         if d is None and p["lib_written"] is not None:
             d = diff_written(p["lib_written"], m[2], impl[1]["T"])
         ctx.sample(f"[{p['label']}] {short[:160]} -> impl ok {len(impl[1]['P'])} projects {len(impl[1]['V'])} votes L={[str(x) if x is not None else None for x in impl[1]['L']]} | model {'same' if d is None else d}", cap=8)
         if d is not None:
-            ctx.disagreements.append({"line": short, "rows": p["rows"], "label": p["label"], "impl": "ok", "model": d})
+            ctx.disagreements.append({"line": short, "full_line": ln[:20000], "rows": p["rows"], "label": p["label"], "impl": "ok", "model": d})
 
 
 # ----------------------------------------------------------------------------------------------
